@@ -1,9 +1,9 @@
 #!/bin/bash
 # usage: seedr3.sh <Cxx> [round-prefix]  — confirm a round-3 seeded change delivered in /tmp/s3/<Cxx>/out, keep it as seeded/R3-<Cxx>, run the check of its property on it
 id=$1; pre=${2:-R3}
-out=/tmp/s3/$id/out
+out=${SEEDDIR:-/tmp/s3}/$id/out
 [ -f $out/patch.diff ] || { echo "$id: no patch"; exit 2; }
-line=$(/verif/tools/seedverify.sh s3$id $out | tail -1)
+line=$(/verif/tools/seedverify.sh ${pre}x$id $out | tail -1)
 echo "$line"
 case "$line" in
   *"demo-unchanged=PASS apply=ok build=ok demo-changed=FAIL suite=ok"*)
